@@ -113,3 +113,28 @@ def c_batch_check(it, recv, a):
 for (m, n) in [(0, 0), (2, 1), (1, 1), (2, 2), (3, 3)]:
     unit(f"kzg.batch_check[{m},{n}]", KEY, "OpeningKey::batch_check",
          [("self", sym("self")), ("points", points_arr(m)), ("proofs", proofs_arr(n)), ("transcript", vf.TR)], c_batch_check, vf.out_verify)
+
+
+# ------------------------------------------------------------------ CommitKey::from_raw_var_bytes: every point is checked individually
+def c_from_raw_var_bytes(it, recv, a):
+    """(C17) Ok(key) only if EVERY decoded point passed is_on_curve & is_torsion_free itself; the first point failing it
+    yields Err(PointMalformed).  (The length-field arithmetic before the loop is outside this unit's tracked objects.)"""
+    b = a[0]
+    it.ctx.exits.append(("err_if", VOpaque("lt", [VOpaque("len", [b]), Sym("u64::SIZE")]), "Error::NotEnoughBytes"))
+    ln = VOpaque("havoc:len")
+    it.ctx.exits.append(("err_if", VOpaque("eq", [ln, 0]), canon(VOpaque("Error::InvalidData"))))
+    inner = VOpaque("checked_mul", [ln, Sym("G1Affine::RAW_SIZE")])
+    it.ctx.exits.append(("try", f"{inner.canon()} is None => Err(Error::NotEnoughBytes)"))
+    outer = VOpaque("checked_add", [Sym("u64::SIZE"), VOpaque("some_of", [inner])])
+    it.ctx.exits.append(("try", f"{outer.canon()} is None => Err(Error::NotEnoughBytes)"))
+    it.ctx.exits.append(("err_if", VOpaque("ne", [VOpaque("len", [b]), VOpaque("some_of", [outer])]), "Error::NotEnoughBytes"))
+    chunks = Sym(VOpaque("chunks_exact", [VOpaque("slice", [b, Sym("u64::SIZE"), "end"]), Sym("G1Affine::RAW_SIZE")]).canon())
+    pt = VOpaque("G1Affine::from_slice_unchecked", [Sym(chunks.path + "[*]")])
+    valid = VOpaque("and", [VOpaque("is_on_curve", [pt]), VOpaque("is_torsion_free", [pt])])
+    it.ctx.event("for_each_in_order", chunks.path, (), (("err_if", VOpaque("not", [valid]), "Error::PointMalformed"),))
+    return VOk(VStruct("Self", {"powers_of_g": VArr([VOpaque("for_each_pushed", [chunks, pt])], "vec")}))
+
+
+CONTRACTS["G1Affine::from_slice_unchecked"] = lambda it, recv, a: VOpaque("G1Affine::from_slice_unchecked", [a[0]])
+unit("kzg.CommitKey::from_raw_var_bytes", KEY, "CommitKey::from_raw_var_bytes", [("bytes", sym("bytes"))], c_from_raw_var_bytes,
+     vf.out_verify, trace_only=True, tracked=("powers_of_g", "point", "chunk", "point_is_valid"))
